@@ -100,6 +100,15 @@ def subs_extras():
             e = ("S", b, m)
             if lang.well_typed(e) and all(k in lang.ty(b).inputs for k, _ in m):
                 out.append(e)
+    # chained substitutions: the outer key names an input introduced by a VALUE of the inner substitution
+    inner_vals = [T("k", dtype=2, contents=[1, 0]), V("k", 2), T("jk", dtype=2, contents=[0, 1, 1, 1, 0, 0])]
+    outer = [(("k", N(1, 2)),), (("k", V("f", 2)),), (("k", T("m", dtype=2, contents=[1])),)]
+    for b in [("U", "exp", (), tij), ("U", "exp", (), ("B", "add", ti, x)), ("B", "add", tij, tj), ("U", "neg", (), ("R", "add", tij, (("j", 3),))), tij]:
+        for v in inner_vals:
+            for o in outer:
+                e = ("S", ("S", b, (("i", v),)), o)
+                if lang.well_typed(e):
+                    out.append(e)
     return out
 
 
